@@ -217,8 +217,24 @@ func runC10(cfg config) *hx.Report {
 		}
 		steps := 8 + rng.Intn(25)
 		routed := false
+		errCount := func(c *c10client) int {
+			c.ws.mu.Lock()
+			defer c.ws.mu.Unlock()
+			n := 0
+			for _, e := range c.ws.log {
+				if e.Type == protocol.TypeError {
+					n++
+				}
+			}
+			return n
+		}
 		for st := 0; st < steps; st++ {
 			r := rng.Intn(20)
+			frameAuthor := -1 // index of the client that wrote a frame in this step
+			var errBefore []int
+			for _, c := range clients {
+				errBefore = append(errBefore, errCount(c))
+			}
 			switch {
 			case r < 5 || len(clients) < 2:
 				if len(clients) >= 6 {
@@ -255,6 +271,7 @@ func runC10(cfg config) *hx.Report {
 				if !c.alive {
 					continue
 				}
+				frameAuthor = k
 				switch rng.Intn(10) {
 				case 0:
 					c.ws.conn.WriteMessage(websocket.BinaryMessage, []byte{1, 2, 3})
@@ -312,6 +329,23 @@ func runC10(cfg config) *hx.Report {
 				time.Sleep(15 * time.Millisecond)
 			}
 			quiesce()
+			// whatever a frame provokes in the way of error reports (unknown addressee,
+			// invalid envelope) goes to the CONNECTION that wrote it and to nobody else -
+			// also when another connection carries the same peer id
+			if frameAuthor >= 0 {
+				for j, c := range clients {
+					if j >= len(errBefore) {
+						break
+					}
+					got := errCount(c) - errBefore[j]
+					if j != frameAuthor && got > 0 {
+						rep.Violate("error-report-to-non-author", fmt.Sprintf("after %q, c%d (%s in s%d) received %d error report(s) although c%d wrote the frame", names[len(names)-1], j+1, pname(c.peer), c.sess, got, frameAuthor+1), map[string]any{"script": names})
+					}
+					if j == frameAuthor && got > 1 {
+						rep.Violate("error-report-duplicated", fmt.Sprintf("after %q its author c%d received %d error reports", names[len(names)-1], j+1, got), map[string]any{"script": names})
+					}
+				}
+			}
 		}
 		quiesce()
 		// logs -> Coq, and the property oracle directly on what the clients saw
